@@ -1,4 +1,5 @@
 SPECIFICATION Spec
 CONSTANT Dict <- DictIn
+CONSTANTS MiniLen = 64 CutoffLen = 4096 DifatHdrLen = 109
 POSTCONDITION Consumed
 CHECK_DEADLOCK FALSE
